@@ -137,7 +137,7 @@ package board
 //@   use repInstance(b, m.To())
 //@   use repInstance(b, Square(capSq(pos(b), uint16(m))))
 //@   use repInstance(b, b.CaptureSq(m))
-//@   ensures [placement*] samePlacement(pos(b), succ(p0, m))
+//@   ensures [placement] samePlacement(pos(b), succ(p0, m))
 //@   ensures [stm]       stm(pos(b)) == stm(succ(p0, m))
 //@   ensures [castles]   cas(pos(b)) == cas(succ(p0, m))
 //@   ensures [fifty]     fifty(pos(b)) == fifty(succ(p0, m))
